@@ -262,8 +262,8 @@ func (e *FnEnc) instr(in ssa.Instruction) {
 		h := s.CellHeap(pt.Elem())
 		e.setHeap(h, sx("store", e.heap(h), r, s.Zero(pt.Elem())))
 		e.vals[i] = Val{T: r, Ty: i.Type()}
-		if !e.escapes(i) {
-			e.locals = append(e.locals, localRef{h.Name, r})
+		if ei, never := e.escapeInfo(i); never || ei != nil {
+			e.locals = append(e.locals, localRef{h.Name, r, ei})
 		}
 	case *ssa.FieldAddr:
 		base := e.val(i.X)
@@ -323,7 +323,7 @@ func (e *FnEnc) instr(in ssa.Instruction) {
 			// unknown calls leave it unchanged, like the object itself
 			if mt, isMap := i.Type().Underlying().(*types.Map); isMap && !l.Elem && immutableHeap(l.Heap.Name) {
 				sr := e.sorts()
-				e.locals = append(e.locals, localRef{sr.MapDom(mt.Key()).Name, v.T}, localRef{sr.MapVal(mt.Key(), mt.Elem()).Name, v.T}, localRef{MapLen.Name, v.T})
+				e.locals = append(e.locals, localRef{sr.MapDom(mt.Key()).Name, v.T, nil}, localRef{sr.MapVal(mt.Key(), mt.Elem()).Name, v.T, nil}, localRef{MapLen.Name, v.T, nil})
 			}
 		case token.NOT:
 			e.setVal(i, not(x.T))
@@ -453,8 +453,8 @@ func (e *FnEnc) instr(in ssa.Instruction) {
 		e.setHeap(MapLen, sx("store", e.heap(MapLen), r, "0"))
 		e.vals[i] = Val{T: r, Ty: i.Type()}
 		e.assume(sx("=", e.W.UF("mtype", []string{"Int"}, "Int", r), fmt.Sprint(e.W.TypeID(mt))))
-		if !e.mapEscapes(i) {
-			e.locals = append(e.locals, localRef{md.Name, r}, localRef{s.MapVal(mt.Key(), mt.Elem()).Name, r}, localRef{MapLen.Name, r})
+		if ei, never := e.escapeInfo(i); never || ei != nil {
+			e.locals = append(e.locals, localRef{md.Name, r, ei}, localRef{s.MapVal(mt.Key(), mt.Elem()).Name, r, ei}, localRef{MapLen.Name, r, ei})
 		}
 	case *ssa.MapUpdate:
 		m, k, v := e.val(i.Map), e.val(i.Key), e.val(i.Value)
@@ -841,6 +841,162 @@ func (e *FnEnc) valueEscapes(v ssa.Value) bool {
 		}
 	}
 	return false
+}
+
+// escapeSites: the instructions at which the local object v (an Alloc or a MakeMap) becomes reachable by code outside
+// this function. A store of v into another local object defers to that object's escape. all=true: unknown uses.
+func (e *FnEnc) escapeSites(v ssa.Value, seen map[ssa.Value]bool) (sites []ssa.Instruction, all bool) {
+	if seen[v] {
+		return nil, false
+	}
+	seen[v] = true
+	_, isMap := v.Type().Underlying().(*types.Map)
+	localRoot := func(addr ssa.Value) *ssa.Alloc {
+		for {
+			switch a := addr.(type) {
+			case *ssa.FieldAddr:
+				addr = a.X
+				continue
+			case *ssa.IndexAddr:
+				addr = a.X
+				continue
+			case *ssa.Alloc:
+				return a
+			}
+			return nil
+		}
+	}
+	var visit func(x ssa.Value, depth int)
+	visit = func(x ssa.Value, depth int) {
+		refs := x.Referrers()
+		if refs == nil {
+			all = true
+			return
+		}
+		for _, r := range *refs {
+			switch u := r.(type) {
+			case *ssa.DebugRef:
+			case *ssa.FieldAddr:
+				if u.X == x {
+					visit(u, depth+1)
+				}
+			case *ssa.IndexAddr:
+				if u.X == x {
+					visit(u, depth+1)
+				}
+			case *ssa.UnOp:
+				if u.Op != token.MUL {
+					sites = append(sites, u)
+				}
+			case *ssa.Store:
+				if u.Val == x {
+					if L := localRoot(u.Addr); L != nil && L != v {
+						s2, a2 := e.escapeSites(L, seen)
+						sites = append(sites, s2...)
+						all = all || a2
+					} else {
+						sites = append(sites, u)
+					}
+				}
+			case *ssa.MapUpdate:
+				if !(isMap && depth == 0 && u.Map == x && u.Value != x && u.Key != x) {
+					sites = append(sites, u)
+				}
+			case *ssa.Lookup:
+				if !(isMap && depth == 0 && u.X == x) {
+					sites = append(sites, u)
+				}
+			case *ssa.Range:
+			case *ssa.Slice:
+				if _, isArr := u.X.Type().Underlying().(*types.Pointer); !isArr {
+					sites = append(sites, u)
+				}
+			case *ssa.Call:
+				if b, ok := u.Call.Value.(*ssa.Builtin); ok && (b.Name() == "len" || b.Name() == "delete" || b.Name() == "cap") {
+					continue
+				}
+				if depth != 0 || !e.ownedArg(&u.Call, x) {
+					sites = append(sites, u)
+				}
+			case *ssa.MakeClosure:
+				// a function literal handed only to the modelled sort functions runs during that call and is not
+				// retained: capturing the variable is not an escape
+				if !closureOnlySorts(u) {
+					sites = append(sites, u)
+				}
+			case ssa.Instruction:
+				sites = append(sites, u)
+			}
+		}
+	}
+	visit(v, 0)
+	return sites, all
+}
+
+func closureOnlySorts(mc *ssa.MakeClosure) bool {
+	refs := mc.Referrers()
+	if refs == nil {
+		return false
+	}
+	for _, r := range *refs {
+		switch u := r.(type) {
+		case *ssa.DebugRef:
+		case *ssa.Call:
+			f := u.Call.StaticCallee()
+			if f == nil {
+				return false
+			}
+			switch calleeName(f) {
+			case "sort.Slice", "sort.SliceStable":
+			default:
+				return false
+			}
+		default:
+			return false
+		}
+	}
+	return true
+}
+
+// escapeInfo: never=true if the object does not escape at all; otherwise the region of program points from which it
+// may have escaped (nil with never=false: treat as escaped from the start).
+func (e *FnEnc) escapeInfo(v ssa.Value) (info *escInfo, never bool) {
+	sites, all := e.escapeSites(v, map[ssa.Value]bool{})
+	if all {
+		return nil, false
+	}
+	if len(sites) == 0 {
+		return nil, true
+	}
+	first := map[*ssa.BasicBlock]int{}
+	var work []*ssa.BasicBlock
+	for _, s := range sites {
+		b := s.Block()
+		if b == nil {
+			return nil, false
+		}
+		idx := 0
+		for k, in := range b.Instrs {
+			if in == s {
+				idx = k
+			}
+		}
+		if f, ok := first[b]; !ok || idx < f {
+			first[b] = idx
+		}
+		work = append(work, b)
+	}
+	for len(work) > 0 {
+		b := work[0]
+		work = work[1:]
+		for _, sc := range b.Succs {
+			if f, ok := first[sc]; !ok || f != 0 {
+				first[sc] = 0
+				work = append(work, sc)
+			}
+		}
+	}
+	return &escInfo{first: first}, false
 }
 
 func (e *FnEnc) escapes(a *ssa.Alloc) bool {
